@@ -10,6 +10,7 @@ import (
 	"regexp"
 	"sort"
 	"strings"
+	"sync"
 	"time"
 )
 
@@ -255,25 +256,65 @@ func solveAll(e *Exec, res *HarnessResult, prop string, timeoutS int, meta *Harn
 			// the disjunction over all paths is too heavy: decide path by path
 			tot := r.dur
 			allUnsat := true
+			// per-path queries: cheap attempt on the live solver, the rest in parallel on one-shot solvers
+			type job struct {
+				q   *Term
+				res qres
+			}
+			var jobs []*job
 			for _, qi := range g.qs {
 				if qi.IsFalse() {
 					continue
 				}
-				ri := e.decide(append([]*Term{qi}, axioms...), timeoutS, meta.Solver, "", true)
-				tot += ri.dur
-				if ri.res == "sat" {
-					r = ri
+				rr, mm := e.solver.Check(append([]*Term{qi}, axioms...), 300, true)
+				if rr == "unsat" {
+					continue
+				}
+				if rr == "sat" {
+					r = qres{"sat", mm, "z3", 0}
 					q = qi
 					allUnsat = false
+					jobs = nil
 					break
 				}
-				if ri.res != "unsat" {
-					allUnsat = false
-					r = ri
+				jobs = append(jobs, &job{q: qi})
+			}
+			if allUnsat && len(jobs) > 0 {
+				sem := make(chan struct{}, 6)
+				var wg sync.WaitGroup
+				tj := time.Now()
+				for _, j := range jobs {
+					wg.Add(1)
+					go func(j *job) {
+						defer wg.Done()
+						sem <- struct{}{}
+						defer func() { <-sem }()
+						as := append([]*Term{j.q}, axioms...)
+						vars := varsOf(Collect(as))
+						fr := RunScript("z3", Script(as, true, ""), vars, time.Duration(timeoutS)*time.Second, "")
+						if fr.Res == "unknown" {
+							fr = RunScript("z3new", Script(as, true, ""), vars, time.Duration(timeoutS)*time.Second, "")
+						}
+						j.res = qres{fr.Res, fr.Model, fr.Solver, fr.Dur.Seconds()}
+					}(j)
+				}
+				wg.Wait()
+				tot += time.Since(tj).Seconds()
+				for _, j := range jobs {
+					if j.res.res == "sat" {
+						r = j.res
+						q = j.q
+						allUnsat = false
+						break
+					}
+					if j.res.res != "unsat" {
+						allUnsat = false
+						r = j.res
+					}
 				}
 			}
 			if allUnsat {
-				r = qres{"unsat", nil, r.solver + " (per path)", tot}
+				r = qres{"unsat", nil, "z3 (per path)", tot}
 			}
 			r.dur = tot
 		} else if r.res == "unknown" && first < timeoutS {
